@@ -1620,6 +1620,33 @@ cannot checkpoint user %u's queue", u);
 checkpointed user %u", u);
 		}
 	}
+	/* users that own no task anymore must not keep their old queue */
+	with (int dfd = openat(qdirfd, ".", O_RDONLY | O_DIRECTORY)) {
+		DIR *d;
+
+		if (dfd < 0 || (d = fdopendir(dfd)) == NULL) {
+			if (!(dfd < 0)) {
+				close(dfd);
+			}
+			rc = -1;
+			break;
+		}
+		for (struct dirent *dp; (dp = readdir(d)) != NULL;) {
+			unsigned int u;
+			int n = 0;
+
+			if (sscanf(dp->d_name, "echsq_%u.ics%n", &u, &n) < 1 ||
+			    !n || dp->d_name[n]) {
+				/* not a queue file */
+				continue;
+			} else if (seenp(&sntr, u) != -1) {
+				/* just written */
+				continue;
+			}
+			rc += chkpnt1(u);
+		}
+		closedir(d);
+	}
 	free(snds);
 	return rc;
 }
